@@ -135,6 +135,25 @@ class Ctx(object):
             return False
         return None
 
+    def note_rendered(self, c):
+        """a CONCRETE constant c is being rendered to text.  If a symbolic constant rendered
+        earlier on this path (as a marker) may equal c, texts would differ although the values are
+        equal: the case 'equal' is re-run from the start under that assumption (the symbolic
+        constant then renders as c itself), and this path continues under 'different'."""
+        if c in self.rendered:
+            return
+        self.rendered.append(c)
+        for (t, mk_) in self.markers:
+            eq = (t == c)
+            if self._check(eq) != z3.unsat:
+                pres = [d for d in self.trace if d[0] == "pre"]
+                self.todo.append(pres + [("pre", eq)])
+                ne = z3.Not(eq)
+                if self._check(ne) == z3.unsat:
+                    raise PathDone("marker equals a constant rendered later")
+                self.pc.append(ne)
+                self.solver.add(ne)
+
     def _next_decision(self, kind):
         k = len(self.trace)
         if k < len(self.decisions):
@@ -748,6 +767,7 @@ class SInt(object):
         ctx = cur()
         v = ctx.forced_value(s.t)
         if v is not None:
+            ctx.note_rendered(v)
             return format(v, spec)
         for (u, mk_) in ctx.markers:
             if ctx.branch(s.t == u):
@@ -862,6 +882,15 @@ def explore(body, mode="int", W=None, logic=None, maxpaths=20000, index_limit=64
         Ctx.cur = ctx
         if before_path is not None:
             before_path()
+        try:
+            for d in dec:
+                if d[0] != "pre":
+                    break
+                ctx.trace.append(d)
+                ctx.assume(d[1])
+        except PathDone:
+            Ctx.cur = None
+            continue
         r = PathResult()
         r.exc = None
         r.post = None
